@@ -72,6 +72,8 @@ TD = {
     'wrap': dict(times=[((23, 50, 0, 0), (0, 10, 0, 0))]),
     'whole': dict(times=[((12, 10, 0, 0), (12, 10, 0, 0))]),
     'micro': dict(times=[((12, 10, 0, 1), (12, 10, 0, 500000))]),
+    # endpoints closer together than a wake-up latency (the next wake-up time has passed already)
+    'micro2': dict(times=[((12, 10, 0, 100), (12, 10, 0, 300))]),
     'adjacent': dict(times=[((12, 10, 0, 0), (12, 20, 0, 0)), ((12, 20, 0, 0), (12, 30, 0, 0))]),
     'two': dict(times=[((11, 50, 0, 0), (12, 5, 0, 0)), ((12, 40, 0, 0), (13, 0, 0, 0))]),
     'mid0': dict(times=[((0, 0, 0, 0), (6, 0, 0, 0))]),
@@ -265,6 +267,13 @@ def configs(tier):
                 c['t0'] = DAY + 11 * 3600 * US + 50 * 60 * US - boff(c)
                 c['actions'] = (('reconfig', c['t0'] + 5 * 60 * US + 7, 0, new, 0),)
                 out.append(c)
+    # S1m: several blocks whose wake-up times are microseconds apart
+    for names in (('offhour', 'micro', 'micro2'), ('micro2', 'share'), ('micro', 'micro2', 'wed', 'whole')):
+        b = DAY + 12 * 3600 * US + 10 * 60 * US
+        for off in (-3000, -1500, -1000, -500, -100, 0, 150):
+            for rl in (1, 20):
+                out.append(dict(kind='start', blocks=names, t0=b + off, span=3600 * US, read_lat=rl,
+                                utc=False, actions=()))
     # plain starts of every catalogue entry, one to three blocks, mid-day
     for names in [(n,) for n in CAT] + [('hour', 'offhour'), ('wrap', 'span-midnight', 'wed'),
                                        ('span-past', 'none'), ('span-empty',), ('span-past', 'span-empty'),
